@@ -54,6 +54,10 @@ def to_json(nd: list) -> dict:
         return {"type": "string", "enum": ["a", "b"]}
     if k == "map":
         return {"type": "object", "additionalProperties": to_json(nd[1])}
+    if k == "objx":   # object with properties AND oneOf/anyOf next to them (branches: required-only or $ref variants)
+        d = {"type": "object", "properties": {a: to_json(b) for a, b in nd[1]}, "required": list(nd[2])}
+        d["anyOf" if nd[3] == "anyof" else "oneOf"] = [to_json(x) for x in nd[4]]
+        return d
     if k == "bare":
         v = nd[2]
         if v == "required":
@@ -115,6 +119,12 @@ def all_names(schemas: list) -> tuple[set, set]:
         elif k in ("oneof", "anyof", "allof"):
             for x in nd[1]:
                 walk(x)
+        elif k == "objx":
+            for a, b in nd[1]:
+                keys.add(a)
+                walk(b)
+            for x in nd[4]:
+                walk(x)
     for n, nd in schemas:
         names.add(n)
         walk(nd)
@@ -154,6 +164,14 @@ FOLLOWUP_PENDING = False
 
 def in_domain(inp: dict) -> bool:
     """the fragment the Gallina model is claimed to be faithful on"""
+    if not names_in_domain(inp):
+        return False
+    return shapes_in_domain(inp)
+
+
+def names_in_domain(inp: dict) -> bool:
+    """names on which sanitize_class_name is 'capitalise the first letter' (also the domain of the emitted-model oracle:
+    other names are renamed/de-collided by the generator, which is C20's subject)"""
     from pyopenapi_gen.core.utils import NameSanitizer
     names, keys = all_names(inp["schemas"])
     real = NameSanitizer.sanitize_class_name
@@ -169,12 +187,14 @@ def in_domain(inp: dict) -> bool:
         for n in names:
             if real(n + simple_cls(k)) != n + simple_cls(k) or real(n + simple_cls(k) + "Item") != n + simple_cls(k) + "Item":
                 return False
-    if len({n for n, _ in inp["schemas"]}) != len(inp["schemas"]):
-        return False
+    return len({n for n, _ in inp["schemas"]}) == len(inp["schemas"])
+
+
+def shapes_in_domain(inp: dict) -> bool:
     if anonymous_complex_array(inp["schemas"]):
         return False
-    if bare_misplaced(inp["schemas"]):
-        return False
+    if bare_misplaced(inp["schemas"]) or any(nd[0] == "objx" for _, nd in inp["schemas"]):
+        return False   # objx (properties next to oneOf/anyOf) is not a node of the model: oracle only
     if FOLLOWUP_PENDING and inp.get("max_depth") is not None and any(nd[0] == "ref" for _, nd in inp["schemas"]):
         return False
     return True
@@ -264,7 +284,7 @@ class _Cyclic(Exception):
 def decl_fields(spec: dict, nd: list, seen: tuple = ()) -> tuple[dict, set]:
     """declared fields of a node: own properties plus those inherited through allOf (plain recursion)."""
     k = nd[0]
-    if k == "obj":
+    if k in ("obj", "objx"):   # oneOf/anyOf next to properties constrain values, they do not add or remove fields
         return {a: b for a, b in nd[1]}, set(nd[2])
     if k == "bare":          # a branch without properties still contributes its `required` list
         return {}, set(bare_req(nd))
@@ -358,7 +378,7 @@ def oracle(inp: dict, obs: Any, schemas: dict | None) -> list[str]:
                 if r:
                     return r
             return None
-        if k in ("obj", "allof", "bare"):
+        if k in ("obj", "allof", "bare", "objx"):
             if q.type != "object":
                 return f"{where}: want object, got {q.type}"
             return fields_ok(nd, q, where, depth + 1)
@@ -476,6 +496,203 @@ def pipeline_check(inp: dict) -> tuple[list[str], str]:
             if not ok:
                 fails.append(f"generated code: {n}.{key} is annotated {t}, declared {pn[0]} {pn[1] if pn[0] != 'arr' else ''}")
     return fails, "ok"
+
+
+# ---------------------------------------------------------------- third observation: the EMITTED model modules (text)
+def ann_kind(e) -> Any:
+    """rendered annotation -> structural kind: ["prim",t] | ["model",Name] | ["list",k] | ["dict",k] | ["union",[k..]]
+    | ["any"] | ["literal"]; None-ness (Optional / `| None`) is dropped"""
+    import ast
+    if isinstance(e, ast.Constant):
+        if e.value is None:
+            return None
+        if isinstance(e.value, str):
+            try:
+                return ann_kind(ast.parse(e.value, mode="eval").body)
+            except SyntaxError:
+                return ["any"]
+        return ["literal"]
+    if isinstance(e, ast.Name):
+        if e.id in ("int", "str", "float", "bool", "bytes"):
+            return ["prim", e.id]
+        if e.id == "Any":
+            return ["any"]
+        if e.id == "None":
+            return None
+        return ["model", e.id]
+    if isinstance(e, ast.Attribute):
+        return ["model", e.attr]
+    if isinstance(e, ast.BinOp) and isinstance(e.op, ast.BitOr):
+        parts = []
+        for x in (ann_kind(e.left), ann_kind(e.right)):
+            if x is None:
+                continue
+            parts += x[1] if x[0] == "union" else [x]
+        return parts[0] if len(parts) == 1 else (["union", parts] if parts else None)
+    if isinstance(e, ast.Subscript):
+        head = e.value.id if isinstance(e.value, ast.Name) else (e.value.attr if isinstance(e.value, ast.Attribute) else "?")
+        args = list(e.slice.elts) if isinstance(e.slice, ast.Tuple) else [e.slice]
+        if head in ("List", "list", "Sequence", "Set", "set"):
+            return ["list", ann_kind(args[0]) or ["any"]]
+        if head in ("Dict", "dict", "Mapping"):
+            return ["dict", (ann_kind(args[-1]) or ["any"])]
+        if head == "Optional":
+            return ann_kind(args[0])
+        if head == "Union":
+            parts = []
+            for a in args:
+                x = ann_kind(a)
+                if x is None:
+                    continue
+                parts += x[1] if x[0] == "union" else [x]
+            return parts[0] if len(parts) == 1 else (["union", parts] if parts else None)
+        if head == "Literal":
+            return ["literal"]
+        return ["any"]
+    return ["any"]
+
+
+def emitted_models(inp: dict) -> Any:
+    """Run the real generator and read every emitted models/*.py with `ast` (no import: C01 owns importability):
+    {name: {"kind": "dataclass"|"enum"|"alias", "fields": [[wire key, python name, required, kind]], "alias": kind}}"""
+    import ast
+    import pipeline
+    with _Env(inp.get("max_depth")):
+        g = pipeline.generate(doc(inp["schemas"]))
+    try:
+        if not g.ok:
+            return "generator-failed: " + str(g.error)[:80]
+        out: dict = {}
+        for f in g.files:
+            if "/models/" not in f or not f.endswith(".py") or f.endswith("__init__.py"):
+                continue
+            try:
+                mod = ast.parse(g.read(f))
+            except SyntaxError:
+                return "syntax-error in " + f
+            for st in mod.body:
+                if isinstance(st, ast.ClassDef):
+                    decos = [d.id if isinstance(d, ast.Name) else (d.func.id if isinstance(d, ast.Call) and isinstance(d.func, ast.Name) else "") for d in st.decorator_list]
+                    bases = [b.id for b in st.bases if isinstance(b, ast.Name)]
+                    if "Enum" in bases:
+                        out[st.name] = {"kind": "enum"}
+                    elif "dataclass" in decos:
+                        load = {}
+                        for c in st.body:
+                            if isinstance(c, ast.ClassDef) and c.name == "Meta":
+                                for a in c.body:
+                                    if (isinstance(a, ast.Assign) and isinstance(a.targets[0], ast.Name)
+                                            and a.targets[0].id == "key_transform_with_load" and isinstance(a.value, ast.Dict)):
+                                        load = {k.value: v.value for k, v in zip(a.value.keys, a.value.values)
+                                                if isinstance(k, ast.Constant) and isinstance(v, ast.Constant)}
+                        py2wire = {v: k for k, v in load.items()}
+                        fields = []
+                        for c in st.body:
+                            if isinstance(c, ast.AnnAssign) and isinstance(c.target, ast.Name):
+                                nm = c.target.id
+                                fields.append([py2wire.get(nm, nm), nm, c.value is None, ann_kind(c.annotation) or ["any"]])
+                        wrapper = [f[1] for f in fields] == ["_data"]
+                        out[st.name] = {"kind": "mapclass" if wrapper else "dataclass", "fields": fields}
+                elif isinstance(st, ast.AnnAssign) and isinstance(st.target, ast.Name) and st.value is not None:
+                    out[st.target.id] = {"kind": "alias", "alias": ann_kind(st.value) or ["any"]}
+        return out
+    finally:
+        g.cleanup()
+
+
+def emitted_oracle(inp: dict, em: Any) -> list[str]:
+    """the property on the emitted modules: every declared object schema is a dataclass with one field per declared
+    property (wire key, required flag) annotated with the structural kind the document gives - a reference is typed as
+    the right model, never as Any / dict[str, Any]"""
+    from pyopenapi_gen.core.utils import NameSanitizer
+    cls = NameSanitizer.sanitize_class_name
+    spec = {n: nd for n, nd in inp["schemas"]}
+    if isinstance(em, str):
+        return []          # not an observation of C02 (counted)
+    fails: list[str] = []
+
+    def chain(n):
+        out = [n]
+        while n in spec and spec[n][0] == "ref" and spec[n][1] not in out:
+            n = spec[n][1]
+            out.append(n)
+        return out
+
+    def conf(nd, k, where):
+        t = nd[0]
+        if t == "ref":
+            ch = chain(nd[1])
+            names = {cls(a) for a in ch} | set(ch)
+            end = spec.get(ch[-1])
+            if k[0] == "model" and k[1] in names:
+                return None
+            if end is not None and end[0] == "prim" and k == ["prim", PY_PRIM[end[1]]]:
+                return None
+            if end is not None and end[0] == "arr" and k[0] == "list":
+                return conf(end[1], k[1], where + "[]")
+            if end is None:
+                return None    # dangling reference: nothing is claimed
+            return f"{where}: should be typed as the model {nd[1]}, is rendered as {k}"
+        if t == "prim":
+            return None if k == ["prim", PY_PRIM[nd[1]]] else f"{where}: want {PY_PRIM[nd[1]]}, rendered {k}"
+        if t == "arr":
+            if k[0] == "model":
+                return None    # a named alias module for an array of inline items
+            if k[0] != "list":
+                return f"{where}: want a list, rendered {k}"
+            return conf(nd[1], k[1], where + "[]")
+        if t == "enum":
+            # an inline enum is an enum class (or Literal); as array item the generator renders the bare value type:
+            # accepted, the property does not claim enum classes for array items
+            return None if k[0] in ("model", "literal") or k == ["prim", "str"] else f"{where}: want an enum, rendered {k}"
+        if t in ("obj", "objx", "allof"):
+            return None if k[0] in ("model", "literal") else f"{where}: want a model class, rendered {k}"
+        if t == "map":
+            return None if k[0] in ("model", "dict") else f"{where}: want a map, rendered {k}"
+        if t in ("oneof", "anyof"):
+            return None if k[0] in ("model", "union", "prim", "list") else f"{where}: want a union, rendered {k}"
+        return None
+
+    for n, nd0 in inp["schemas"]:
+        nd = nd0
+        if nd[0] == "ref":
+            continue           # an alias is the same model as its target
+        e = em.get(cls(n)) or em.get(n)
+        if nd[0] in ("obj", "allof", "objx"):
+            try:
+                want, req = decl_fields(spec, nd)
+            except _Cyclic:
+                continue
+            if e is None:
+                fails.append(f"emitted: no model class {n}")
+                continue
+            if e["kind"] != "dataclass":
+                if not want and e["kind"] in ("alias", "mapclass"):
+                    continue   # an object without declared properties may be rendered as a plain alias
+                fails.append(f"emitted: {n} is rendered as {e['kind']}, not as a dataclass with fields {sorted(want)}")
+                continue
+            got = {f[0]: f for f in e["fields"]}
+            if set(got) != set(want) or len(got) != len(e["fields"]):
+                fails.append(f"emitted: {n} has wire keys {sorted(got)}, declared {sorted(want)}")
+                continue
+            for key, pn in want.items():
+                f = got[key]
+                if f[2] != (key in req):
+                    fails.append(f"emitted: {n}.{key} required={f[2]} but declared {key in req}")
+                r = conf(pn, f[3], f"emitted: {n}.{key}")
+                if r:
+                    fails.append(r)
+        elif nd[0] == "enum":
+            if e is None or e["kind"] != "enum":
+                fails.append(f"emitted: {n} should be an enum, is {e['kind'] if e else 'missing'}")
+        elif nd[0] in ("arr", "prim"):
+            if e is None:
+                fails.append(f"emitted: no alias for {n}")
+            elif e["kind"] == "alias":
+                r = conf(nd, e["alias"], f"emitted: {n}")
+                if r:
+                    fails.append(r)
+    return fails
 
 
 # ---------------------------------------------------------------- Coq printers
@@ -832,6 +1049,40 @@ def alias_cases() -> list[dict]:
     return out
 
 
+def kind_cases() -> list[dict]:
+    """(i) cycles whose back edge targets a named union / array / map alias, every declaration order; references to named
+    primitive and enum aliases; (ii) object schemas that carry properties AND oneOf/anyOf (required-only branches,
+    variant branches), also as allOf parent and as property target"""
+    R = lambda n: ["ref", n]  # noqa: E731
+    out = []
+    for kw in ("oneof", "anyof"):
+        items = [["Expr", [kw, [R("BinaryOp"), R("Num")]]],
+                 ["BinaryOp", ["obj", [["left", R("Expr")], ["right", R("Expr")], ["op", ["enum"]]], ["left"]]],
+                 ["Num", ["obj", [["value", ["prim", "number"]]], ["value"]]]]
+        out += [{"schemas": [json.loads(json.dumps(items[i])) for i in o]} for o in itertools.permutations(range(3))]
+        single = [items[0], ["BinaryOp", ["obj", [["left", R("Expr")], ["op", ["enum"]]], ["left"]]], items[2]]
+        out += [{"schemas": [json.loads(json.dumps(single[i])) for i in o]} for o in itertools.permutations(range(3))]
+    for tgt in (["arr", R("Entry")], ["map", R("Entry")], ["arr", ["arr", R("Entry")]]):
+        for extra in ([], [["peer", R("Entry")]]):
+            items = [["Listing", tgt], ["Entry", ["obj", [["children", R("Listing")], ["label", ["prim", "string"]]] + extra, ["label"]]]]
+            out += [{"schemas": [json.loads(json.dumps(items[i])) for i in o]} for o in itertools.permutations(range(2))]
+    items = [["Ident", ["prim", "string"]], ["Kind", ["enum"]], ["Scores", ["arr", ["prim", "integer"]]],
+             ["Thing", ["obj", [["ident", R("Ident")], ["kind", R("Kind")], ["scores", R("Scores")], ["kinds", ["arr", R("Kind")]]], ["ident", "kind"]]]]
+    out += [{"schemas": [json.loads(json.dumps(items[i])) for i in o]} for o in ((0, 1, 2, 3), (3, 2, 1, 0), (1, 3, 0, 2))]
+    num = ["Num", ["obj", [["value", ["prim", "number"]]], []]]
+    sq = ["Sq", ["obj", [["side", ["prim", "number"]]], ["side"]]]
+    for kw in ("anyof", "oneof"):
+        contact = ["Contact", ["objx", [["email", ["prim", "string"]], ["phone", ["prim", "string"]], ["owner", R("Num")]], ["owner"], kw,
+                               [["bare", ["email"], "required"], ["bare", ["phone"], "required"]]]]
+        shape = ["Shape", ["objx", [["kind", ["prim", "string"]], ["tags", ["arr", ["prim", "string"]]]], ["kind"], kw, [R("Num"), R("Sq")]]]
+        derived = ["Derived", ["allof", [R("Contact"), ["obj", [["note", ["prim", "string"]]], []]]]]
+        holder = ["Holder", ["obj", [["contact", R("Contact")], ["shapes", ["arr", R("Shape")]]], ["contact"]]]
+        for items in ([contact, num], [num, contact], [shape, num, sq], [sq, num, shape], [derived, contact, num],
+                      [contact, num, derived], [holder, contact, shape, num, sq], [num, sq, shape, contact, holder]):
+            out.append({"schemas": json.loads(json.dumps(items))})
+    return out
+
+
 def gen_malformed(rng) -> dict:
     """outside the model's name domain / shape domain: oracle only"""
     weird = ["A", "AB", "userGroup", "user_group", "Next", "S1a", "Üser"]
@@ -856,7 +1107,13 @@ def chain(n: int, max_depth: int | None = None) -> dict:
 # ---------------------------------------------------------------- entry
 def run_one(inp: dict) -> dict:
     obs, schemas = run_impl(inp)
-    return {"input": inp, "obs": obs, "oracle_fail": oracle(inp, obs, schemas), "dom": in_domain(inp)}
+    fails = oracle(inp, obs, schemas)
+    em_status = "skipped"
+    if not isinstance(obs, str) and len(inp["schemas"]) <= 12 and names_in_domain(inp):
+        em = emitted_models(inp)
+        em_status = em.split(":")[0] if isinstance(em, str) else "ok"
+        fails = fails + emitted_oracle(inp, em)
+    return {"input": inp, "obs": obs, "oracle_fail": fails, "dom": in_domain(inp), "emitted": em_status}
 
 
 def run_all(inputs: list[dict]) -> list[dict]:
@@ -896,6 +1153,7 @@ def build_inputs(chk: Check) -> list[dict]:
     inputs += shapes if chk.thorough else rng.sample(shapes, 40)
     aliases = alias_cases()
     inputs += aliases if chk.thorough else rng.sample(aliases, 40)
+    inputs += kind_cases()
     inputs += [add_aliases(gen_spec(rng, 5), rng) for _ in range(n // 5)]
     inputs += [add_aliases(tighten(gen_core(rng, 5, acyclic=True), rng), rng) for _ in range(n // 8)]
     inputs += [tighten(gen_spec(rng, 7), rng) if i % 2 else gen_spec(rng, 7) for i in range(n)]
@@ -910,6 +1168,51 @@ def build_inputs(chk: Check) -> list[dict]:
 FINDING_BITS = {1: "F02a", 2: "F02b", 3: "F02c", 4: "F02d"}
 
 
+# which classes of oracle failure each open finding can explain (measured on the unchanged tree, thorough tier; a failure
+# of another class on an input where only that finding's guard is false is NOT attributed - e.g. a reference rendered as
+# dict[str, Any] on a document whose only peculiarity is an unstored cycle placeholder, or a wrong `required` flag anywhere)
+EXPLAINS = {
+    "F02a": {"placeholder-model", "placeholder-prop", "fields", "kind", "missing", "ref", "required",
+             "em-fields", "em-kind", "em-missing", "em-type", "em-ref", "em-ref-untyped", "em-required"},
+    "F02b": {"fields", "kind", "ref", "placeholder-prop", "em-fields", "em-kind", "em-type", "em-missing"},
+    "F02c": {"placeholder-model", "placeholder-prop", "fields", "ref", "required",
+             "em-fields", "em-missing", "em-type", "em-ref", "em-required"},
+    "F02d": {"placeholder-model", "placeholder-prop", "fields", "em-fields", "em-missing", "em-type", "em-ref", "em-kind"},
+}
+
+
+def fail_class(msg: str) -> str:
+    """coarse class of an oracle failure; a known finding may only explain the classes listed for it in EXPLAINS"""
+    if msg.startswith("emitted:"):
+        if "no model class" in msg or "no alias for" in msg:
+            return "em-missing"
+        if "not as a dataclass" in msg or "should be an enum" in msg:
+            return "em-kind"
+        if "has wire keys" in msg:
+            return "em-fields"
+        if "required=" in msg:
+            return "em-required"
+        if "should be typed as the model" in msg:
+            # a reference rendered without any model name (Any / dict[str, Any] / a primitive) vs. under another name
+            return "em-ref" if "'model'" in msg.split("is rendered as")[-1] else "em-ref-untyped"
+        return "em-type"
+    if "the model is a placeholder" in msg:
+        return "placeholder-model"
+    if "resolved to a placeholder" in msg:
+        return "placeholder-prop"
+    if "!= declared" in msg:
+        return "fields"
+    if "required=" in msg:
+        return "required"
+    if "should reference" in msg or "which has no model" in msg:
+        return "ref"
+    if ": no model" in msg:
+        return "missing"
+    if "loading the document failed" in msg:
+        return "load"
+    return "kind"
+
+
 def main(chk: Check, replay: dict | None = None) -> int:
     if replay is not None:
         r = run_one(replay["input"])
@@ -922,20 +1225,9 @@ def main(chk: Check, replay: dict | None = None) -> int:
     inputs = build_inputs(chk)
     cases = run_all(inputs)
     chk.cov["evaluations"] = len(cases)
-    # second observation (generated dataclasses) on a subset: corpus + evenly spread in-domain inputs
-    idx = [i for i, c in enumerate(cases) if c["dom"] and not isinstance(c["obs"], str)]
-    want = 60 if chk.thorough else 10
-    ncorpus = len(load_corpus("C02"))
-    chosen = [i for i in idx if i < ncorpus and len(cases[i]["input"]["schemas"]) < 20]
-    rest = [i for i in idx if i >= ncorpus]
-    chosen += rest[:: max(1, len(rest) // want)][:want]
     pstat: dict[str, int] = {}
-    for i in chosen:
-        fails, status = pipeline_check(cases[i]["input"])
-        pstat[status] = pstat.get(status, 0) + 1
-        cases[i]["oracle_fail"] = cases[i]["oracle_fail"] + fails
-        if fails:
-            pstat["with_failures"] = pstat.get("with_failures", 0) + 1
+    for c in cases:
+        pstat[c.get("emitted", "skipped")] = pstat.get(c.get("emitted", "skipped"), 0) + 1
     dom = [c for c in cases if c["dom"]]
     out = [c for c in cases if not c["dom"]]
     distinct = {json.dumps(c["input"], sort_keys=True) for c in cases
@@ -963,7 +1255,7 @@ def main(chk: Check, replay: dict | None = None) -> int:
         "in_model_domain": len(dom), "oracle_only": len(out),
         "load_errors": sum(1 for c in cases if isinstance(c["obs"], str)),
         "oracle_failures": sum(1 for c in cases if c["oracle_fail"]),
-        "generated_dataclass_checks": pstat,
+        "emitted_model_observations": pstat,
         "in_C02_partial_fragment": sum(1 for c in dom if in_theorem_fragment(c["input"])),
         "in_C02_partial_fragment_oracle_failures": sum(1 for c in dom if in_theorem_fragment(c["input"]) and c["oracle_fail"]),
         "with_placeholder": sum(1 for c in cases if not isinstance(c["obs"], str) and any(r[2] for r in c["obs"])),
@@ -981,6 +1273,18 @@ def main(chk: Check, replay: dict | None = None) -> int:
         chk.cov["input_distribution"]["in_inl_spec_fragment"] = len(frag)
         chk.cov["input_distribution"]["in_inl_spec_fragment_with_all_guards_true"] = len(clean)
         chk.cov["input_distribution"]["in_inl_spec_fragment_guards_true_oracle_failures"] = sum(1 for c in clean if c["oracle_fail"])
+    if codes is not None:
+        for c, code in zip(dom, codes):
+            if not c["oracle_fail"] or code & 1:
+                continue
+            fired = [FINDING_BITS[k] for k in FINDING_BITS if (code >> k) & 1 and FINDING_BITS[k] in chk.known]
+            if not fired:
+                continue
+            ok_classes = set().union(*(EXPLAINS[f] for f in fired))
+            unexplained = [m for m in c["oracle_fail"] if fail_class(m) not in ok_classes]
+            if unexplained:
+                chk.violation(c, f"(not explained by {'/'.join(fired)}) " + "; ".join(unexplained))
+                c["oracle_fail"] = [m for m in c["oracle_fail"] if m not in unexplained]
     chk.decide(dom, codes, FINDING_BITS,
                "Corr.C02.run: observe(parse spec) = observation of load_ir_from_spec(spec).schemas")
     # outside the model's domain only the oracle speaks; failures there cannot be attributed by the model's guards,
@@ -1017,7 +1321,7 @@ def attribute_out_of_domain(chk: Check, c: dict) -> None:
         return
     if dangling:
         return  # a dangling $ref is not a valid document; nothing is claimed
-    chk.violation(c, "(outside the model's name domain) " + "; ".join(c["oracle_fail"]))
+    chk.violation(c, "(outside the model's domain) " + "; ".join(c["oracle_fail"]))
 
 
 def capture_possible(schemas: list) -> bool:
